@@ -18,3 +18,4 @@ def check(ctx, env):
     K.r11_4_pairing(ctx, prog)
     R.r12_2_one_insert(ctx, prog, rule="R11.4")
     R.r5_3_retransmit(ctx, prog, rule="R11.4")
+    R.r5_2_finished(ctx, prog, rule="R11.4")
